@@ -76,7 +76,7 @@ func funcIs(f *types.Func, pkg, recv, name string) bool {
 	if recv == "*" {
 		return true
 	}
-	return rn == recv
+	return rn == recv || (recv != "" && rn == curTypeName(pkg, recv))
 }
 
 func funcKey(f *types.Func) string {
@@ -314,7 +314,7 @@ func namedOf(t types.Type) *types.Named {
 // fieldIs reports whether fv is field `name` of named struct pkg.typ.
 func fieldAddrIs(fa *ssa.FieldAddr, pkg, typ, name string) bool {
 	n := namedOf(fa.X.Type())
-	if n == nil || n.Obj().Pkg() == nil || n.Obj().Pkg().Path() != pkg || n.Obj().Name() != typ {
+	if n == nil || n.Obj().Pkg() == nil || n.Obj().Pkg().Path() != pkg || (n.Obj().Name() != typ && n.Obj().Name() != curTypeName(pkg, typ)) {
 		return false
 	}
 	fv := fieldVar(fa.X.Type(), fa.Field)
@@ -333,7 +333,7 @@ func loadsField(v ssa.Value, pkg, typ, name string) bool {
 		}
 	case *ssa.Field:
 		n := namedOf(x.X.Type())
-		if n == nil || n.Obj().Pkg() == nil || n.Obj().Pkg().Path() != pkg || n.Obj().Name() != typ {
+		if n == nil || n.Obj().Pkg() == nil || n.Obj().Pkg().Path() != pkg || (n.Obj().Name() != typ && n.Obj().Name() != curTypeName(pkg, typ)) {
 			return false
 		}
 		fv := fieldVar(x.X.Type(), x.Field)
@@ -452,6 +452,7 @@ func relevantMerges(fn *ssa.Function) []*ssa.BasicBlock {
 		return r
 	}
 	set := map[*ssa.BasicBlock]bool{}
+	var testBlock *ssa.BasicBlock
 	var add func(v ssa.Value, d int)
 	add = func(v ssa.Value, d int) {
 		ph, ok := v.(*ssa.Phi)
@@ -465,8 +466,10 @@ func relevantMerges(fn *ssa.Function) []*ssa.BasicBlock {
 				add(e, d+1)
 			}
 		}
-		// the phi of the testing block itself is resolved by the way in; only nesting needs history
-		if d > 0 || nested {
+		// the phi of the testing block itself is resolved by the way in; nesting, and a test made
+		// in a later block than the merge (`keep, err := helper(); if err != nil {..}; if keep {..}`),
+		// need history
+		if d > 0 || nested || ph.Block() != testBlock {
 			set[ph.Block()] = true
 		}
 	}
@@ -479,6 +482,7 @@ func relevantMerges(fn *ssa.Function) []*ssa.BasicBlock {
 			continue
 		}
 		base, _ := condNorm(iff.Cond)
+		testBlock = b
 		switch x := base.(type) {
 		case *ssa.Phi:
 			add(x, 0)
@@ -718,7 +722,25 @@ func isZeroConst(c *ssa.Const) bool {
 }
 
 // nilness of v when control is in block at: 1 = nil, 2 = non-nil, 0 = unknown.
-func nilness(v ssa.Value, at *ssa.BasicBlock) int {
+func nilness(v ssa.Value, at *ssa.BasicBlock) int { return nilnessD(v, at, 0) }
+
+func nilnessD(v ssa.Value, at *ssa.BasicBlock, depth int) int {
+	// a merge all of whose inputs are known the same way (an error variable that is mapped on
+	// one branch: `if err == io.EOF { err = io.ErrUnexpectedEOF }`)
+	if ph, ok := v.(*ssa.Phi); ok && depth < 3 && len(ph.Edges) > 0 {
+		all := 0
+		for i, e := range ph.Edges {
+			k := nilnessD(e, ph.Block().Preds[i], depth+1)
+			if k == 0 || (all != 0 && k != all) {
+				all = 0
+				break
+			}
+			all = k
+		}
+		if all != 0 {
+			return all
+		}
+	}
 	switch x := v.(type) {
 	case *ssa.Const:
 		if x.IsNil() {
@@ -732,7 +754,7 @@ func nilness(v ssa.Value, at *ssa.BasicBlock) int {
 		}
 	case *ssa.UnOp:
 		// package-level error sentinels (io.EOF, ErrNotFound, ...) are never nil
-		if g, ok := x.X.(*ssa.Global); ok && x.Op == token.MUL && types.Identical(x.Type(), types.Universe.Lookup("error").Type()) && strings.HasPrefix(g.Name(), "Err") || ok && g.Name() == "EOF" {
+		if g, ok := x.X.(*ssa.Global); ok && x.Op == token.MUL && types.Identical(x.Type(), types.Universe.Lookup("error").Type()) && (strings.HasPrefix(g.Name(), "Err") || strings.HasPrefix(g.Name(), "err")) || ok && g.Name() == "EOF" {
 			return 2
 		}
 	}
